@@ -64,6 +64,11 @@ def arg_after(h, flag):
 
 def check(ctx):
     prog = ctx.prog
+    # tls-alpn-01 with the shipped hooks needs tacd to answer correctly for every identifier (C16) and the hooks' variables to follow
+    # the documented environment precedence (C10.R6)
+    from . import c10 as _c10, c16 as _c16
+    ctx.shared("C16", _c16.check)
+    ctx.shared("C10", _c10.env_rules)
     cfg, path = A.load_default_hooks(ctx.repo)
     path = os.path.relpath(path, ctx.repo)
     hooks = cfg.get("hook", [])
